@@ -135,7 +135,13 @@ func (env *Env) eval(x Expr) (Val, error) {
 			if _, ok := xv.T.Underlying().(*types.Pointer); !ok {
 				return Val{}, fmt.Errorf("dereference of non-pointer %s", n.X.exprString())
 			}
-			return env.e.load(env.st, env.e.ptrAddr(xv)), nil
+			out := env.e.load(env.st, env.e.ptrAddr(xv))
+			if env.e.inQuant == 0 && len(out.L) <= 4 {
+				env.e.noOutside = true
+				env.e.assumeWF(True, out)
+				env.e.noOutside = false
+			}
+			return out, nil
 		}
 		return Val{}, fmt.Errorf("unsupported unary %s", n.Op)
 	case EBinary:
@@ -169,6 +175,22 @@ func (env *Env) eval(x Expr) (Val, error) {
 		q := "forall"
 		if !n.Forall {
 			q = "exists"
+		}
+		if len(n.Triggers) > 0 {
+			var ts []string
+			env.e.inQuant++
+			for _, te := range n.Triggers {
+				tv, err := c.eval(te)
+				if err != nil {
+					env.e.inQuant--
+					return Val{}, err
+				}
+				for _, l := range env.e.flat(env.st, env.reach, tv) {
+					ts = append(ts, l.S)
+				}
+			}
+			env.e.inQuant--
+			return boolVal(T(SBool, "(%s (%s) (! %s :pattern (%s)))", q, strings.Join(decl, " "), body, strings.Join(ts, " "))), nil
 		}
 		return boolVal(T(SBool, "(%s (%s) %s)", q, strings.Join(decl, " "), body)), nil
 	case ECall:
@@ -328,7 +350,7 @@ func (env *Env) field(xv Val, name string) (Val, error) {
 							env.e.outsideRef(True, out.L[i])
 						}
 					}
-					if len(out.L) <= 2 {
+					if len(out.L) <= 4 {
 						env.e.noOutside = true
 						env.e.assumeWF(True, out)
 						env.e.noOutside = false
@@ -842,6 +864,36 @@ func (env *Env) callExpr(n ECall) (Val, error) {
 			cs = append(cs, T(SBool, "(forall ((oa Int)) (! (=> (and (<= oa %s) (not (= oa %s))) (= (select %s oa) (select %s oa))) :pattern ((select %s oa))))", bound, v.L[0], cur, old, cur))
 		}
 		return boolVal(And(cs...)), nil
+	case "elem":
+		// elem(s, a): element at ABSOLUTE index a of the backing array of slice s (no offset arithmetic: good trigger)
+		if err := argN(2); err != nil {
+			return Val{}, err
+		}
+		sv, err := env.eval(n.Args[0])
+		if err != nil {
+			return Val{}, err
+		}
+		av, err := env.evalTerm(n.Args[1])
+		if err != nil {
+			return Val{}, err
+		}
+		sl, ok := sv.T.Underlying().(*types.Slice)
+		if !ok {
+			return Val{}, fmt.Errorf("elem() needs a slice")
+		}
+		return env.e.load(env.st, &Addr{Kind: aElem, Ref: sv.L[0], Idx: av, Root: sl.Elem(), T: sl.Elem()}), nil
+	case "offset":
+		if err := argN(1); err != nil {
+			return Val{}, err
+		}
+		sv, err := env.eval(n.Args[0])
+		if err != nil {
+			return Val{}, err
+		}
+		if len(sv.L) != 4 {
+			return Val{}, fmt.Errorf("offset() needs a slice")
+		}
+		return intVal(sv.L[1]), nil
 	case "samearray":
 		if err := argN(2); err != nil {
 			return Val{}, err
